@@ -242,6 +242,12 @@ def run_history_op(h, i):
             src = "from vf.c14_child import SHARED_SCRIPT as _shared_script\n" + src.replace("@script()\n", "@_shared_script\n")
             load_source(src, "r")
             return "accepted"
+        elif name == "tr_roles":
+            src = gen.HEADER + gen.roles_script(f"hist_roles_{i}", h["which"])
+            src = "from vf.c14_child import SHARED_SCRIPT as _shared_script\n" + src.replace("@script()\n", "@_shared_script\n")
+            fn = getattr(load_source(src, "q"), f"hist_roles_{i}")
+            fn.to_model_proto()
+            fn.to_function_proto()
         elif name == "pat_raise":
             def bad_pattern(op, x, y):
                 z = op.Add(x, y)
